@@ -60,3 +60,7 @@ def sources(insts, ntu=16):
            'int main() {\n' + ''.join('  reg_map_%d();\n' % i for i in range(ntu)) + '  return vh::serve();\n}\n'
     srcs.append(('map_main.cpp', main))
     return srcs
+
+def lite(insts):
+    """reduced matrix for the configuration sweep of C15"""
+    return [i for i in insts if i[1] in ('i32', 'u8', 'i64') and len(i[2]) <= 3 and i[3] in (None, 'D', 4)]
